@@ -106,7 +106,7 @@ def once_table(ctx) -> None:
 
 def where_construction(ctx, tenv) -> None:
     prog = ctx.prog
-    fn = prog.func(f'{COMPONENT}:Source.Extract.Ordinal.where')
+    fn = prog.func(f'{COMPONENT}:Source.Extract.Ordinal.where').inlined()
     params = [p for p in fn.param_names if p != 'self']
     if params[:2] != ['lower', 'upper']:
         raise core.AnalysisError(f'Ordinal.where signature changed: {params}')
